@@ -10,6 +10,7 @@ for s in "$@"; do
     out=$(VERIF_SEED=$s bin/check $id $tier 2>&1); rc=$?
     line=$(echo "$out" | grep '^gv:' | tail -1)
     echo "seed=$s $id rc=$rc $line"
+    echo "$out" | grep '^gv-fuzz:' 
     if [ $rc -ne 0 ] || echo "$out" | grep -q '^VIOLATION'; then bad=1; echo "$out" | grep -A3 '^VIOLATION' | cut -c1-600; fi
   done
 done
